@@ -187,6 +187,9 @@ func TestVerifC10Graph(t *testing.T) {
 		out.Stat(fmt.Sprintf("pipelines=%d", len(topo.pipes)), 1)
 		out.Stat(fmt.Sprintf("connectors=%d", len(topo.conns)), 1)
 		out.Stat(fmt.Sprintf("nodes~%d", len(b0.keys)/4*4), 1)
+		for _, p := range topo.pipes {
+			out.Stat("pipeline-signal="+p.sig, 1)
+		}
 		// configuration-derived edges vs the implementation graph
 		skeys, sedges := topo.specEdges(true)
 		var specE [][2]int
